@@ -296,8 +296,13 @@ def check(pid, tier="quick", seed=None, jobs=None, count=None, write_evidence=Tr
             from . import drivers
 
             drivers.warm_up(sc)
-        for (clause, sig), items in sorted(by_sig.items()):
+        max_sigs = int(os.environ.get("VERIF_MAX_SIGS", 8))
+        extra_sigs = []
+        for (clause, sig), items in sorted(by_sig.items(), key=lambda kv: (kv[0][1] not in known_sigs, -len(kv[1]), kv[0])):
             r, v = items[0]
+            if sig not in known_sigs and n_viol >= max_sigs:
+                extra_sigs.append(f"{clause}/{sig} x{len(items)} (first seed {r['seed']})")
+                continue
             if sig in known_sigs:
                 known_lines.append(f"KNOWN-FINDING: property={pid} {known_sigs[sig]['what']} [sig={sig} count={len(items)} sample_seed={r['seed']}]")
                 continue
@@ -331,6 +336,8 @@ def check(pid, tier="quick", seed=None, jobs=None, count=None, write_evidence=Tr
     for line, det in new_lines:
         print(line)
         print(det)
+    if by_sig and extra_sigs:
+        print(f"  ... and {len(extra_sigs)} further violation signatures without their own replay file: " + "; ".join(extra_sigs[:12]))
     wall = time.time() - t0
     total_disc = sum(discards.values())
     if evaluations and total_disc > 0.2 * max(1, stats.get("clauses_checked", evaluations)):
